@@ -279,6 +279,12 @@ func (d *Decoder) PopMessage() []byte {
 		lenNumberSize = WordLen
 	}
 
+	// the length is the peer's word: no more is allocated than the input still holds
+	if realSize > d.buf.Len() {
+		d.err = fmt.Errorf("message of %v bytes can't fit in %v bytes left", realSize, d.buf.Len())
+		return nil
+	}
+
 	// этот буффер и будет уже реальным собщением
 	buf := make([]byte, realSize)
 	d.read(buf)
